@@ -136,6 +136,9 @@ func cmdCheck(args []string) int {
 		}
 	}
 	run.replayDir = filepath.Join(verifDir(), "replays", id)
+	if d := os.Getenv("GOVC_REPLAY_DIR"); d != "" {
+		run.replayDir = filepath.Join(d, id)
+	}
 	os.RemoveAll(run.replayDir)
 	code := run.execute(*verbose)
 	run.writeEvidence(start, code)
@@ -659,9 +662,13 @@ func (run *checkRun) writeEvidence(start time.Time, code int) {
 		"wall_s":     time.Since(start).Seconds(),
 		"violations": nViol,
 	}
-	os.MkdirAll(filepath.Join(verifDir(), "evidence"), 0o755)
+	evDir := filepath.Join(verifDir(), "evidence")
+	if d := os.Getenv("GOVC_EVIDENCE_DIR"); d != "" {
+		evDir = d // runs against a mutated scratch copy must not overwrite the evidence of the real tree
+	}
+	os.MkdirAll(evDir, 0o755)
 	data, _ := json.MarshalIndent(ev, "", " ")
-	os.WriteFile(filepath.Join(verifDir(), "evidence", id+".json"), data, 0o644)
+	os.WriteFile(filepath.Join(evDir, id+".json"), data, 0o644)
 }
 
 func tail(s string, n int) string {
